@@ -179,9 +179,10 @@ func identicalKeyGroups(plan *enginesim.Plan) {
 			continue
 		}
 		if j, ok := first[k]; ok {
-			b := plan.Ops[i].Barrier
+			// same request, same key; whether it is sent as a preview stays the sender's choice
+			b, dry := plan.Ops[i].Barrier, plan.Ops[i].DryRun
 			plan.Ops[i] = plan.Ops[j]
-			plan.Ops[i].Barrier = b
+			plan.Ops[i].Barrier, plan.Ops[i].DryRun = b, dry
 		} else {
 			first[k] = i
 		}
